@@ -83,6 +83,7 @@ struct WorldParams {
 	bool guardRequests = true;
 	int  dropPct = 0, dupPct = 0, delayMax = 0;
 	bool allowOverflow = false;           // C11 lens: bursts beyond capacity
+	int  maxTasks = -1;                   // build twins with different task capacities: stay within the smaller one
 	std::set<std::string> avoid;          // avoidance preconditions of open known findings
 };
 
